@@ -60,7 +60,9 @@ Inductive step :=
 | StAssessOwn (ti : nat) (w : want (Z * val))         (* assess(tr.get_choices(), tr.get_args()) *)
 | StProject (ti : nat) (s : sterm) (w : want Z)
 | StEdit (ti : nat) (seed : N) (q : rterm) (args : list val) (tags : list tagt) (w : want (tobs * Z * bobs))
-| StBwd (ei : nat) (seed : N) (w : want (tobs * Z)).    (* apply the backward request of edit ei to its new trace, old arguments *)
+| StBwd (ei : nat) (seed : N) (w : want (tobs * Z))     (* apply the backward request of edit ei to its new trace, old arguments *)
+| StPropose (seed : N) (args : list val) (w : want tobs)              (* propose = simulate's choices, score, return value *)
+| StSub (ti : nat) (a : addr) (w : want (Z * list (list ckey * option Z))).   (* get_subtrace: score and choices of the sub-execution *)
 
 Definition res_ok {A B} (r : res A) (w : want B) (ok : A -> B -> bool) : bool :=
   match r, w with
@@ -103,6 +105,15 @@ Definition run_step (g : gf) (sx : st) (s : step) : bool * st :=
            | Ok (t', _, b) => (traces ++ [t'], edits ++ [Some {| e_trace := t'; e_bwd := b; e_oldargs := t_args t; e_tags := tags |}])
            | Err _ => (traces, edits ++ [None])
            end)
+      | None => (false, sx)
+      end
+  | StPropose seed args w =>
+      (res_ok (simulate g (key_of_seed seed) args) w tobs_ok, sx)
+  | StSub ti a w =>
+      match nth_error traces ti with
+      | Some t => (res_ok (get_inner_trace t a) w
+                          (fun x o => Z.eqb (t_score x) (fst o) &&
+                                      forallb (fun pw => optZ_eqb (look (t_choices x) (fst pw)) (snd pw)) (snd o)), sx)
       | None => (false, sx)
       end
   | StBwd ei seed w =>
